@@ -194,4 +194,4 @@ def obs2(ops):
     return out
 
 
-CONFORMANCE += [("obs2", [[0, 3, 1, 4]]), ("obs2", [[3, 0, 5, 2]])]
+CONFORMANCE += [("obs2", [[0, 3, 1, 4]]), ("obs2", [[3, 0, 5, 2]]), ("parse_isolation", [[0, 3, 1]]), ("parse_isolation", [[3, 0, 4]]), ("parse_isolation", [[1, 4, 0]])]
